@@ -22,7 +22,7 @@ ASSUMPTIONS = [
 ]
 MONITORS = "TransferResult vs os.walk listings of the destination before/after, per-oid upload log, source byte snapshot and audit-hook mutation log on the source"
 REQUIRED_COUNTERS = [
-    "rounds", "rounds_with_failures", "rounds_with_preexisting", "rounds_missing_both_sides", "rounds_verify_corrupt_source",
+    "rounds_with_index", "rounds_dest_with_state", "rounds", "rounds_with_failures", "rounds_with_preexisting", "rounds_missing_both_sides", "rounds_verify_corrupt_source",
     "transferred_objects_checked", "source_snapshots_compared", "rounds_expanded", "rounds_local_dest", "rounds_remote_dest",
 ]
 
@@ -33,7 +33,71 @@ def run_shard(ctx):
     res = ctx.res
     max_rounds = 10 if ctx.tier == "quick" else 36
 
+    def with_index(case, rng):
+        """two pushes sharing a destination index, with an external deletion in between"""
+        from dvc_data.hashfile.db.index import ObjectDBIndex
+
+        d = ctx.fresh("x")
+        sc = Scenario(ctx, rng, d, dest_kind=rng.choice(["remote", "remote", "local"]), ntrees=rng.choice([2, 3]), extra_files=False)
+        index = ObjectDBIndex(os.path.join(d, "idx"), "dest")
+        ids, shallow, denoted = sc.closed_request(expanded=False)
+        r1 = transfer(sc.src, sc.dest, ids, jobs=rng.choice([1, 4]), dest_index=index, cache_odb=sc.src)
+        res.evaluated()
+        res.count("rounds")
+        res.count("rounds_with_index")
+        if r1.failed:
+            res.violation("fault-free-transfer-reported-failures", f"{len(r1.failed)} failed", case=case)
+        # the destination loses one directory object and one of its files
+        victim = rng.choice(sc.trees)
+        lost = {victim["oid"]}
+        only_here = [o for o in set(victim["listing"].values()) if sum(o in t["listing"].values() for t in sc.trees) == 1]
+        if only_here:
+            lost.add(rng.choice(sorted(only_here)))
+        for o in lost:
+            p = sc.dest_path(o)
+            if os.path.exists(p):
+                os.chmod(p, 0o644)
+                os.unlink(p)
+        before = dest_objects(sc)
+        # second request: the other directories (with their files) plus the lost file, or everything
+        if rng.random() < 0.5:
+            sub = set(ids)
+        else:
+            sub = set()
+            for t in sc.trees:
+                if t is not victim:
+                    sub.add(t["hi"])
+                    sub |= {env.HI("md5", v) for v in t["listing"].values()}
+            sub |= {env.HI("md5", o) for o in lost if not o.endswith(".dir")}
+        res.nontrivial("index", sorted(t["oid"] for t in sc.trees), sorted(lost), len(sub))
+        r2 = transfer(sc.src, sc.dest, sub, jobs=rng.choice([1, 4]), dest_index=index, cache_odb=sc.src)
+        after = dest_objects(sc)
+        T = {h.value for h in r2.transferred}
+        F = {h.value for h in r2.failed}
+        info = {"variant": "index-after-external-deletion", "dest": sc.dest_kind, "lost": sorted(lost), "requested": sorted(h.value for h in sub)}
+        res.evaluated()
+        res.count("rounds")
+        res.count("rounds_with_index")
+        has_dir = any(h.isdir for h in sub)
+        for h in sub:
+            o = h.value
+            if o not in after and o not in F and has_dir:
+                res.violation("absent-object-not-reported/with-index", f"{o} requested, absent afterwards, neither transferred nor failed (stale index trusted)",
+                              case=case, detail=info)
+        for o in T:
+            res.count("transferred_objects_checked")
+            if o not in after or not ok_bytes(sc, o, after[o]):
+                res.violation("reported-transferred-but-absent/with-index", f"{o}", case=case, detail=info)
+        for o in set(before) & (T | F):
+            res.violation("already-present-object-reported/with-index", f"{o}", case=case, detail=info)
+        index.close()
+        env.reset_staging()
+        ctx.drop(d)
+
     for case, rng in ctx.cases(ctx.plan["n"]):
+        if case % 8 == 7:
+            ctx.guard(case, with_index, case, rng)
+            continue
 
         def one(case=case, rng=rng):
             d = ctx.fresh("r")
@@ -42,6 +106,7 @@ def run_shard(ctx):
             sc = Scenario(ctx, rng, d, dest_kind=dest_kind, ntrees=rng.choice([1, 1, 2, 3]))
             expanded = rng.random() < 0.4
             jobs = rng.choice([1, 4])
+            dest_state = rng.random() < 0.5
             ids, shallow, denoted = sc.closed_request(expanded)
             if variant == "plain" and rng.random() < 0.3:
                 # a partial request: files only / one dir only
@@ -115,7 +180,13 @@ def run_shard(ctx):
                 from ..crashlab import copy_master
 
                 copy_master(master, sc.dest_root)
-                sc.dest = sc._mk_dest(verify=verify) if verify else sc._mk_dest()
+                dcfg = {"verify": True} if verify else {}
+                if dest_state and dest_kind != "remote":
+                    from ..env import mk_state
+
+                    dcfg["state"] = mk_state(d, os.path.join(d, "dest-state"))
+                    res.count("rounds_dest_with_state")
+                sc.dest = sc._mk_dest(**dcfg)
                 res.evaluated()
                 res.count("rounds")
                 res.count(f"rounds_{'remote' if dest_kind == 'remote' else 'local'}_dest")
@@ -184,6 +255,8 @@ def run_shard(ctx):
                     if after.get(o) != b:
                         res.violation("preexisting-destination-object-changed", f"{o} was altered or removed in the destination", case=case, detail=info)
                         break
+                if "state" in dcfg:
+                    dcfg["state"].close()
             env.reset_staging()
             ctx.drop(d)
 
